@@ -11,6 +11,7 @@ package c01
 // node that re-executes the block from the network).
 
 import (
+	"bytes"
 	"fmt"
 	"math/big"
 	"sort"
@@ -61,6 +62,63 @@ func TestC01Conservation(t *testing.T) {
 		classes := map[string]bool{fmt.Sprintf("public=%v", opts.Public): true, "consensus=" + opts.Consensus: true, fmt.Sprintf("votingReward=%v", votingReward): true}
 		nontrivial := false
 		var hist []string
+		// in a fifth of the cases: a fee-delegating contract that is itself the SENDER of a fee-delegated call. A name
+		// registered by the contract's creator is pointed at the contract; a transaction sent under that name resolves
+		// to the contract account and is signed by the name's owner (the creator), which is what block validation checks.
+		selfName, selfCtr := "", []byte(nil)
+		if rapid.IntRange(0, 4).Draw(t, "contractAsSender") == 0 {
+			prod.SwitchTo()
+			start := prev
+			fund := new(big.Int).Mul(big.NewInt(int64(rapid.SampledFrom([]int{1, 10, 100}).Draw(t, "selfFund"))), vnode.Aergo)
+			tip, err := prod.SetupFeeDelegationScene(w, prev, fund)
+			if err == nil {
+				ctr := w.Contracts[len(w.Contracts)-1]
+				step := func(prev *types.Block, payload []byte) (*types.Block, error) {
+					d, err := prod.DumpAt(prev.GetHeader().GetBlocksRootHash())
+					if err != nil {
+						return nil, err
+					}
+					tx := (&vnode.TxSpec{Kind: "name", From: 0, Nonce: d.Nonce(vnode.KeyN(0).Addr) + 1, Type: types.TxType_GOVERNANCE, Recipient: []byte(types.AergoName),
+						Amount: new(big.Int).Set(vnode.Aergo), Payload: payload}).Build(prod.ChainIDHashFor(prev))
+					p, err := prod.Produce(prev, prev.GetHeader().GetTimestamp()+1000000000, []*types.Tx{tx}, nil)
+					if err != nil {
+						return nil, err
+					}
+					if len(p.Included) != 1 {
+						return nil, fmt.Errorf("name transaction not included")
+					}
+					return p.Block, prod.AddOwn(p)
+				}
+				b1, err1 := step(tip, vnode.CallInfo("v1createName", "c01selfname1"))
+				if err1 == nil {
+					b2, err2 := step(b1, vnode.CallInfo("v1updateName", "c01selfname1", types.EncodeAddress(ctr)))
+					if err2 == nil {
+						tip, selfName, selfCtr = b2, "c01selfname1", ctr
+					} else {
+						tip = b1
+					}
+				}
+			}
+			// the validator follows
+			if val != nil && tip != start {
+				var path []*types.Block
+				for cur := tip; !bytes.Equal(cur.BlockHash(), start.BlockHash()); {
+					path = append([]*types.Block{cur}, path...)
+					cur, err = prod.CS.GetBlock(cur.GetHeader().GetPrevBlockHash())
+					if err != nil {
+						t.Fatal(err)
+					}
+				}
+				val.SwitchTo()
+				for _, blk := range path {
+					if err := val.AddPeer(blk); err != nil {
+						t.Fatalf("validator rejected scene block %d: %v", blk.BlockNo(), err)
+					}
+				}
+				prod.SwitchTo()
+			}
+			prev = tip
+		}
 		for b := 0; b < nblocks; b++ {
 			prod.SwitchTo()
 			var coinbase []byte
@@ -74,6 +132,21 @@ func TestC01Conservation(t *testing.T) {
 			pre, err := prod.DumpAt(prev.GetHeader().GetBlocksRootHash())
 			if err != nil {
 				t.Fatalf("dump parent state: %v", err)
+			}
+			if selfName != "" && rapid.Bool().Draw(t, "selfCall") {
+				// the contract calls itself with fee delegation: sender account = recipient account = fee payer
+				ops := [][]string{{"set", "a", "1"}}
+				if rapid.Bool().Draw(t, "selfBurn") {
+					ops = append(ops, []string{"burn", rapid.SampledFrom([]string{"20000", "200000"}).Draw(t, "burn")})
+				}
+				if rapid.IntRange(0, 3).Draw(t, "selfFails") == 0 {
+					ops = append(ops, []string{"fail", "boom"})
+				}
+				tx := &types.Tx{Body: &types.TxBody{Nonce: pre.Nonce(selfCtr) + 1, Account: []byte(selfName), Recipient: selfCtr, Amount: new(big.Int).Bytes(),
+					Payload: vnode.StubProgram(ops...), Type: types.TxType_FEEDELEGATION, ChainIdHash: prod.ChainIDHashFor(prev)}}
+				vnode.SignTx(tx, vnode.KeyN(0))
+				cands = append(cands, tx)
+				specs = append(specs, &vnode.TxSpec{Kind: "feedeleg-by-the-contract-itself", From: 0, Nonce: tx.Body.Nonce})
 			}
 			p, err := prod.Produce(prev, prev.GetHeader().GetTimestamp()+1000000000, cands, coinbase)
 			if err != nil {
